@@ -1009,6 +1009,137 @@ fn ix_partitions(w: &W) -> Verdict {
     Ok(())
 }
 
+/// One record of up to 2^35 bases served from a formula (`world::Virtual`): file offsets around
+/// and beyond 2^31 and 2^32, where a narrowing cast in offset arithmetic would show.
+fn ix_virtual(w: &W) -> Verdict {
+    use crate::world::Virtual;
+    w.probe("workload_nonempty");
+    w.probe("offsets_beyond_4gib");
+    w.fired("knob_virtual_huge_file");
+    let crlf = w.chance(1, 2);
+    let term: &'static [u8] = if crlf { b"\r\n" } else { b"\n" };
+    let lb = *w.pick(&[60u64, 70, 1, 61, 511, 512, 513, 8192, 100, 7]);
+    let seq_len: u64 = match w.draw(5) {
+        0 => (1u64 << 31) + w.draw(200),
+        1 => (1u64 << 32) + w.draw(200),
+        2 => (1u64 << 33) + w.draw(1000),
+        3 => (1u64 << 32) - 1 - w.draw(100),
+        _ => (1u64 << 30) + w.draw(1u64 << 35),
+    };
+    let header = b">v some description\n".to_vec();
+    let header = if crlf { b">v some description\r\n".to_vec() } else { header };
+    let a = w.draw(20);
+    let b = 1 + w.draw(6);
+    let mut v = Virtual { header, line_bases: lb, term, seq_len, a, b, visible_len: 0 };
+    let total = v.total_len();
+    // optional truncation somewhere in the last quarter or near a power of two
+    let cut = if w.chance(1, 4) {
+        Some(match w.draw(3) {
+            0 => total - 1 - w.draw(total / 4),
+            1 => ((1u64 << 32) + w.draw(100)).min(total - 1),
+            _ => ((1u64 << 31) + w.draw(100)).min(total - 1),
+        })
+    } else {
+        None
+    };
+    v.visible_len = cut.unwrap_or(total);
+    if cut.is_some() {
+        w.fired("cut");
+    }
+    let offset = v.header.len() as u64;
+    let fai = format!("v\t{}\t{}\t{}\t{}\n", seq_len, offset, lb, lb + term.len() as u64);
+    let v = Rc::new(v);
+    let chunk = *w.pick(&CHUNKS);
+    let src = SimSeekRead::new_virtual(w, v.clone(), IoCfg { chunk, eintr_pm: 0, eio_pm: 0 }, "fasta");
+    let mut reader = match IndexedReader::new(src, fai.as_bytes()) {
+        Ok(r) => r,
+        Err(e) => return fail("C12.f-index", format!("IndexedReader::new rejected a well-formed .fai: {}", e)),
+    };
+    if w.keep_trace {
+        w.note("virtual_file", json!({"seq_len": seq_len, "line_bases": lb, "crlf": crlf, "total_bytes": total, "visible_bytes": v.visible_len, "fai": fai, "read_regime": chunk.name()}));
+    }
+    let off_of = |i: u64| offset + (i / lb) * (lb + term.len() as u64) + i % lb;
+    let mut log = vec![];
+    let mut steps = 0u64;
+    let mut buf = b"STALE".to_vec();
+    while steps == 0 || w.more(steps, 8) {
+        steps += 1;
+        // interval: short, placed where the arithmetic is delicate
+        let l = w.small(0, 3000).min(seq_len);
+        let anchor = match w.draw(6) {
+            0 => 1u64 << 31,
+            1 => 1u64 << 32,
+            2 => (1u64 << 32) / (lb + term.len() as u64) * lb, // bases whose file offset is near 2^32
+            3 => seq_len,
+            4 => (1u64 << 31) / (lb + term.len() as u64) * lb,
+            _ => w.draw(seq_len + 1),
+        };
+        let s = anchor.saturating_sub(w.draw(l + 2)).min(seq_len - l.min(seq_len));
+        let e = (s + l).min(seq_len);
+        let use_iter = w.chance(1, 2);
+        let by_rid = w.chance(1, 2);
+        w.set_budget(8 * (e - s + 2 * ((e - s) / lb + 2)) + 2000);
+        let fr = if by_rid { reader.fetch_by_rid(0, s, e) } else { reader.fetch("v", s, e) };
+        if let Err(er) = fr {
+            if cut.is_some() {
+                continue;
+            }
+            return fail("C12.c-must-succeed", format!("fetch [{}, {}) of a {}-base record failed: {}", s, e, seq_len, er));
+        }
+        let need_end = if e > s { off_of(e - 1) + 1 } else { 0 };
+        let short = need_end > v.visible_len;
+        let mut got: Vec<u8> = vec![];
+        let mut err: Option<String> = None;
+        if use_iter {
+            match reader.read_iter() {
+                Err(er) => err = Some(er.to_string()),
+                Ok(it) => {
+                    for (k, item) in it.enumerate() {
+                        match item {
+                            Ok(b) => got.push(b),
+                            Err(er) => {
+                                err = Some(er.to_string());
+                            }
+                        }
+                        if k as u64 > e - s + 8 {
+                            return fail("C12.b-iter", format!("iterator for [{}, {}) does not end", s, e));
+                        }
+                    }
+                }
+            }
+        } else {
+            match reader.read(&mut buf) {
+                Ok(()) => got = buf.clone(),
+                Err(er) => err = Some(er.to_string()),
+            }
+        }
+        w.set_budget(u64::MAX);
+        if w.keep_trace {
+            log.push(json!({"fetch": [s, e], "api": if use_iter { "read_iter" } else { "read" }, "file_offset_of_start": off_of(s), "got_bytes": got.len(), "error": err}));
+            w.note("history", json!(log));
+        }
+        w.clause("C12.a-slice");
+        let clause = if use_iter { "C12.b-iter" } else { "C12.a-slice" };
+        // whatever came back Ok must be a prefix of the slice
+        for (k, g) in got.iter().enumerate() {
+            let want = v.base(s + k as u64);
+            if k as u64 >= e - s || *g != want {
+                return fail(
+                    clause,
+                    format!("[{}, {}) of a {}-base record (width {}, {}; file offset of start {}): byte {} is {:?}, model says {:?}", s, e, seq_len, lb, if crlf { "CRLF" } else { "LF" }, off_of(s), k, *g as char, if (k as u64) < e - s { want as char } else { '∅' }),
+                );
+            }
+        }
+        match (&err, short) {
+            (None, true) => return fail("C12.d-must-fail", format!("[{}, {}) needs file bytes up to {} but the file has {}: no error, {} of {} bases returned", s, e, need_end, v.visible_len, got.len(), e - s)),
+            (None, false) if (got.len() as u64) < e - s => return fail(clause, format!("[{}, {}): silently short: {} of {} bases and no error", s, e, got.len(), e - s)),
+            (Some(er), false) if cut.is_none() => return fail("C12.c-must-succeed", format!("[{}, {}) of a {}-base record (file offset of start {}) failed on an intact file: {}", s, e, seq_len, off_of(s), er)),
+            _ => {}
+        }
+    }
+    Ok(())
+}
+
 pub fn property() -> Property {
     Property {
         id: "C12",
@@ -1017,10 +1148,11 @@ pub fn property() -> Property {
             Scenario { name: "ix-clean", weight: 8, run: ix_clean },
             Scenario { name: "ix-allpairs", weight: 4, run: ix_allpairs },
             Scenario { name: "ix-partitions", weight: 1, run: ix_partitions },
+            Scenario { name: "ix-virtual", weight: 2, run: ix_virtual },
         ],
         panic_clause: "C12.g-nopanic",
         livelock_clause: "C12.g-livelock",
-        rule: "one run = one seeded execution: a FASTA file (1-4 records, own line width each, LF or CRLF, with/without final terminator) plus a .fai computed by an independent reference indexer, an IndexedReader over a seekable simulated file, and a history of 1-10 fetch/read/read_iter steps (valid and invalid), with read fragmentation regime, per-operation EINTR/EIO rates and an optional truncation offset all drawn from one choice stream; ix-allpairs instead sweeps every (start, stop) pair of one record. Non-trivial = a fault or non-default knob actually fired. Distinct = distinct schedule signature: hash of scenario, truncation class and the sequence of (call kind, requested-size class, outcome class) of every endpoint call. ix-partitions plays every partition of one tiny file into read() chunks for two adjacent fetches; one sweep counts as one run.",
+        rule: "one run = one seeded execution: a FASTA file (1-4 records, own line width each, LF or CRLF, with/without final terminator) plus a .fai computed by an independent reference indexer, an IndexedReader over a seekable simulated file, and a history of 1-10 fetch/read/read_iter steps (valid and invalid), with read fragmentation regime, per-operation EINTR/EIO rates and an optional truncation offset all drawn from one choice stream; ix-allpairs instead sweeps every (start, stop) pair of one record. Non-trivial = a fault or non-default knob actually fired. Distinct = distinct schedule signature: hash of scenario, truncation class and the sequence of (call kind, requested-size class, outcome class) of every endpoint call. ix-virtual serves one record of up to 2^35 bases from a formula (file offsets beyond 4 GiB). ix-partitions plays every partition of one tiny file into read() chunks for two adjacent fetches; one sweep counts as one run.",
         real: &["bio::io::fasta::{Index::new, Index::sequences, IndexedReader::{new, with_index, fetch, fetch_by_rid, fetch_all, fetch_all_by_rid, read, read_iter}, IndexedReaderIterator}", "std::io::BufReader (fill_buf/consume/seek)", "csv reader (for the .fai)"],
         stubs: &["the seekable file (SimSeekRead: short reads, EINTR, EIO on read and seek)", "the .fai stream (SimRead: short reads)", "samtools faidx (harness reference indexer)", "truncation of the FASTA file after indexing"],
         assumptions: &[
@@ -1035,7 +1167,7 @@ pub fn property() -> Property {
             "start_on_line_boundary", "stop_on_line_boundary", "empty_interval_read", "iterator_dropped_half_way", "operation_after_dropped_iterator",
             "read_after_failed_read", "re_read_without_new_fetch", "exact_read_after_failed_operation", "operation_failed_by_injected_fault", "cut_inside_requested_range",
             "cut_after_requested_range", "cut_inside_terminator_after_range", "short_file_reported_as_error", "fetch_rejected_unknown_target",
-            "file_without_final_terminator", "empty_record", "fai_rows_not_in_file_order", "magic_size_run", "large_regime", "many_records_regime", "huge_regime", "allpairs_sweep", "all_partitions_sweep",
+            "file_without_final_terminator", "empty_record", "fai_rows_not_in_file_order", "magic_size_run", "large_regime", "many_records_regime", "huge_regime", "offsets_beyond_4gib", "allpairs_sweep", "all_partitions_sweep",
         ],
         quick_runs: 300_000,
         thorough_runs: 20_000_000,
